@@ -18,7 +18,7 @@ def correspondence(ck):
     # (1) section coefficients, bit-exact
     terms, exp = [], []
     for _ in range(12 if ck.tier == "quick" else 120):
-        fs = ck.rng.choice([10.0, 100.0, 48000.0]); fmin = fs * 10 ** ck.rng.uniform(-5, -1); fmax = fs * ck.rng.uniform(0.2, 0.5)
+        fs = ck.rng.choice([10.0, 100.0, 48000.0]); fmin = fs * 10 ** ck.rng.uniform(-9.5, -1); fmax = fs * ck.rng.uniform(0.2, 0.5)
         alpha = ck.rng.choice([0.01, 0.5, 1.0, 1.5, 2.0])
         g = NZ.alpha_noise(fs, fmin, fmax, alpha, init_filter=False, seed=1)
         k = ck.rng.randrange(g._num_spectra)
@@ -82,7 +82,7 @@ def oracle(ck):
     n = 25 if ck.tier == "quick" else 400
     worst = 0.0
     for _ in range(n):
-        fs = ck.rng.choice([10.0, 100.0, 1000.0]); dec = ck.rng.choice([1, 2, 3, 5, 7])
+        fs = ck.rng.choice([10.0, 100.0, 1000.0]); dec = ck.rng.choice([1, 2, 3, 5, 7, 8, 8.5, 9.5])
         fmax = fs * ck.rng.uniform(0.25, 0.5); fmin = fmax / 10 ** dec
         alpha = ck.rng.choice([0.01, 0.25, 0.5, 1.0, 1.5, 2.0, ck.rng.uniform(0.01, 2.0)])
         g = NZ.alpha_noise(fs, fmin, fmax, alpha, init_filter=False, seed=3)
